@@ -10,6 +10,14 @@
    the replay), and by the checker of time-stamped histories whose soundness
    is c17_obs_sound.
 
+   Operations (Model/Registry.v): OReg n d, ONamed n, ONames
+   (RegisteredDecorationNames), OStyles (auto.ListStyles), OSet n (new text
+   table selected by name, rendered), ORender k, OReSet k n
+   (SetDecorationNamed on the k-th table of the goroutine, rendered),
+   OSetDec k d (SetDecoration on it, rendered).  A listing is a value: nothing
+   a caller does to a returned listing is an operation, so later listings
+   cannot depend on it (the harness scribbles over every listing it gets).
+
    [spec_named init ops n] is the history-level reading of a lookup: the
    decoration of the last [OReg n _] in ops, else what the registry was
    initialised with ([init], the built-ins), else Empty.  [body] is the rest
@@ -57,17 +65,38 @@ Print Assumptions c17_closed.
 
 (* ... and in a history: the failed call shows the error and an empty render,
    and every later render of that table (the k-th this goroutine made) is
-   ("", error) too, whatever anybody registers in between. *)
+   ("", error) too, whatever anybody registers in between, for as long as the
+   goroutine itself does not give that table a decoration again
+   ([retargets k o]: o is SetDecorationNamed / SetDecoration on table k). *)
 Theorem c17_closed_history : forall body init (progs : list (list (nat * op))) tr,
   is_merge progs tr -> forall i g n,
   nth_error tr i = Some (g, OSet n) ->
   spec_named init (map snd (firstn i tr)) n = DEmpty ->
   nth_error (run body (init_state init) tr) i = Some (VSet true (Ok ([], true)))
   /\ forall j k, i < j -> nth_error tr j = Some (g, ORender k) ->
-       k = length (set_decs init g [] (firstn i tr)) ->
+       k = length (tab_decs init g (firstn i tr)) ->
+       (forall m o, i < m < j -> nth_error tr m = Some (g, o) -> retargets k o = false) ->
        nth_error (run body (init_state init) tr) j = Some (VRender (Ok ([], true))).
 Proof. exact merge_closed. Qed.
 Print Assumptions c17_closed_history.
+
+(* Selecting by name on a table that already exists - whatever it holds (an
+   explicitly set usable decoration, the result of an earlier selection by the
+   very same name) - is a fresh lookup: the result is that of the LATEST
+   registration of the name at that moment, an error and a refusing table if
+   there is none (spec_render body DEmpty = Ok ([], true)), and later renders
+   show exactly that decoration until the goroutine sets another one. *)
+Theorem c17_reselect : forall body init (progs : list (list (nat * op))) tr,
+  is_merge progs tr -> forall i g k n,
+  nth_error tr i = Some (g, OReSet k n) ->
+  k < length (tab_decs init g (firstn i tr)) ->
+  let d := spec_named init (map snd (firstn i tr)) n in
+  nth_error (run body (init_state init) tr) i = Some (VSet (dec_is_empty d) (spec_render body d))
+  /\ forall j, i < j -> nth_error tr j = Some (g, ORender k) ->
+       (forall m o, i < m < j -> nth_error tr m = Some (g, o) -> retargets k o = false) ->
+       nth_error (run body (init_state init) tr) j = Some (VRender (spec_render body d)).
+Proof. exact merge_reset. Qed.
+Print Assumptions c17_reselect.
 
 (* After all goroutines are done, a name holds the last write of one of the
    programs (DESIGN 13.13), or its initial content if nobody wrote it.
@@ -114,5 +143,10 @@ Example c17_example :
   /\ C17_obs_ok body init (H DEmpty) = false
   /\ C17_obs_ok body init (H (DVal 65 true) ++ [Ev 3 (OReg x (DVal 67 true)) VUnit 13 14; Ev 2 (ONamed x) (VDec (DVal 65 true)) 15 16]) = false
   /\ run body (init_state init) [(0%nat, OSet x); (0%nat, OReg x (DVal 65 true)); (0%nat, ORender 0%nat); (0%nat, ONamed x)]
-     = [VSet true (Ok ([], true)); VUnit; VRender (Ok ([], true)); VDec (DVal 65 true)].
+     = [VSet true (Ok ([], true)); VUnit; VRender (Ok ([], true)); VDec (DVal 65 true)]
+  /\ run body (init_state init) [(0%nat, OSet x); (0%nat, OSetDec 0%nat (DVal 66 true)); (0%nat, OReSet 0%nat x); (0%nat, ORender 0%nat);
+                                  (0%nat, OReg x (DVal 65 true)); (0%nat, OReSet 0%nat x); (0%nat, OReg x (DVal 67 true)); (0%nat, OReSet 0%nat x); (0%nat, OStyles)]
+     = [VSet true (Ok ([], true)); VRender (Ok ([66], false)); VSet true (Ok ([], true)); VRender (Ok ([], true));
+        VUnit; VSet false (Ok ([65], false)); VUnit; VSet false (Ok ([67], false));
+        VNames [[99;115;118]; [104;116;109;108]; [106;115;111;110]; [109;97;114;107;100;111;119;110]; [110;111;110;101]; x]].
 Proof. cbv zeta. repeat split; vm_compute; reflexivity. Qed.
